@@ -2,6 +2,7 @@ package main
 
 import (
 	"bufio"
+	"bytes"
 	"context"
 	"crypto/x509"
 	"encoding/base64"
@@ -218,6 +219,11 @@ func (j *jwksServer) set(keys []pubKey) {
 	}
 	b, _ := json.Marshal(set)
 	j.body.Store(jwksServed{body: b, keys: append([]pubKey(nil), keys...)})
+}
+
+// setRaw publishes a document byte for byte (part 8: documents that no JWK library marshalled)
+func (j *jwksServer) setRaw(body []byte) {
+	j.body.Store(jwksServed{body: append([]byte(nil), body...)})
 }
 
 func b64(b []byte) string { return base64.RawURLEncoding.EncodeToString(b) }
@@ -440,6 +446,8 @@ func c02Stream(r *hx.Rand, tier string, n int, w *bufio.Writer) map[string]int {
 	c02EndpointStream(r, env, n/8)
 	c02ReuseStream(r, env, n/16)
 	c02ConfigStream(r, env, n/16)
+	c02DocStream(r, env, n/8)
+	c02DocHistoryStream(r, env, n/32)
 	return stats
 }
 
@@ -465,6 +473,7 @@ type c02Case struct {
 	part       string     // prefix of the statistics keys
 	tags       []string   // extra key/value pairs describing how the case was generated (not read by the driver)
 	reuse      *c02Reuse  // at | hint | assertion: ONE verifier object (and key-set object) that lives across the steps of a history
+	doc        *c02Doc    // rp (part 8): the JWKS document the endpoint serves, byte for byte, instead of a marshalled key list
 }
 
 // c02Reuse: the verifier objects of a reuse history (c02ep.go); built once, handed to every step
@@ -481,6 +490,7 @@ type c02Reuse struct {
 type c02Remote struct {
 	ks         oidc.KeySet
 	lastServed []pubKey // what the JWKS endpoint answered its last request with (nil: never asked)
+	lastDoc    *c02Doc  // part 8 histories: the DOCUMENT the endpoint answered its last request with (nil: never asked)
 }
 
 const c02Issuer, c02ClientID = "https://op.example", "rp-client"
@@ -511,14 +521,24 @@ func (e *c02Env) verify(c c02Case) {
 	}
 	switch verifier {
 	case "rp":
-		e.jwks.set(set)
+		if c.doc != nil {
+			e.jwks.setRaw(c.doc.body)
+		} else {
+			e.jwks.set(set)
+		}
 		var ks oidc.KeySet
 		if c.remote != nil {
 			// a long-lived remote key set: the line carries what the endpoint served it last BEFORE the call (`pre.`),
 			// what is published now (`cur.`) and, as THE key set of the statement, what it was served last (`ks.`)
 			ks = c.remote.ks
-			ksLinePrefix(l, "pre.", "published", c.remote.lastServed)
-			ksLinePrefix(l, "cur.", "published", set)
+			if c.doc != nil {
+				// part 8 histories: `pre.` / `cur.` are the harness's own reading of the document served last / published now
+				c.remote.lastDoc.readingKV(l, "pre.")
+				c.doc.readingKV(l, "cur.")
+			} else {
+				ksLinePrefix(l, "pre.", "published", c.remote.lastServed)
+				ksLinePrefix(l, "cur.", "published", set)
+			}
 			l.S("stateful", "1")
 		} else {
 			ks = rp.NewRemoteKeySet(http.DefaultClient, e.jwks.srv.URL)
@@ -535,9 +555,22 @@ func (e *c02Env) verify(c c02Case) {
 			fetched := e.jwks.fetches.Load() - f0
 			if fetched > 0 {
 				c.remote.lastServed = e.jwks.last.Load().(jwksServed).keys
+				if c.doc != nil && bytes.Equal(e.jwks.last.Load().(jwksServed).body, c.doc.body) {
+					c.remote.lastDoc = c.doc
+				}
 			}
 			l.I("o.fetches", fetched)
-			ksLinePub(l, "published", c.remote.lastServed)
+			if c.doc != nil {
+				// the oracle lines describe the document published NOW (what a download in this call parses); the statement's key
+				// sets are the reading of the document served LAST
+				c.doc.oracleKV(l, e.stats, c.part)
+				c.remote.lastDoc.readingKV(l, "ks.")
+				c.remote.lastDoc.readingAllKV(l, "ksall.")
+			} else {
+				ksLinePub(l, "published", c.remote.lastServed)
+			}
+		} else if c.doc != nil {
+			c.doc.docKV(l, e.stats, c.part)
 		} else {
 			ksLinePub(l, "published", set)
 		}
